@@ -288,9 +288,22 @@ def _index_maps(prog, rep):
     rep.pin('index maps of views', "R11.3", "VectorVariable.__getitem__", ok, "x[i] / x[a:b:c] are Python list indexing of the element list (negative indices wrapped)" if ok else "vector indexing is not plain list indexing of the element list", loc=gi.loc, detail="slice")
     for cname in ("MatrixSum", "FrobeniusNorm"):
         ev = prog.cls(cname).methods["evaluate"]
+        # the reduction runs over every POSITION of the grid; iterating a set of variables counts a variable that
+        # sits at two positions (symmetric matrices) once
         t = src(ev.node)
-        ok = Frag(t, "range(self.matrix.rows)", "range(self.matrix.cols)")
-        rep.pin('index maps of views', "R11.3", f"{cname}.evaluate", ok, "ranges over all rows x cols" if ok else f"{cname}.evaluate does not range over the full rows x cols grid", loc=ev.loc, detail="full-grid")
+        over_set = [n for n in ast.walk(ev.node) if isinstance(n, (ast.For, ast.comprehension)) and isinstance(n.iter, ast.Call) and isinstance(n.iter.func, ast.Attribute) and n.iter.func.attr == "get_variables"]
+        over_set += [n for n in ast.walk(ev.node) if isinstance(n, (ast.For, ast.comprehension)) and isinstance(n.iter, ast.Call) and dotted(n.iter.func) in ("set", "frozenset")]
+        if over_set:
+            rep.ob("R11.3", f"{cname}.evaluate", False, f"{cname}.evaluate reduces over `{src(over_set[0].iter)[:50]}`, a SET of variables, not over the rows x cols positions: an element that occurs at two positions (A[i][j] and A[j][i] of a symmetric matrix are one Variable) is counted once", loc=f"{ev.module.rel}:{getattr(over_set[0], 'lineno', ev.node.lineno)}", detail="full-grid")
+            continue
+        rng = {src(n.iter) for n in ast.walk(ev.node) if isinstance(n, (ast.For, ast.comprehension))}
+        grid = {"range(self.matrix.rows)", "range(self.matrix.cols)"} <= rng or any("product(range(self.matrix.rows), range(self.matrix.cols))" in r for r in rng)
+        rows_iter = any(r in ("self.matrix._variables", "self.matrix") for r in rng)       # for row in grid: for v in row
+        if grid or rows_iter:
+            rep.ob("R11.3", f"{cname}.evaluate", True, "ranges over all rows x cols positions", loc=ev.loc, detail="full-grid")
+        else:
+            ok = Frag(t, "range(self.matrix.rows)", "range(self.matrix.cols)")
+            rep.pin('index maps of views', "R11.3", f"{cname}.evaluate", ok, "ranges over all rows x cols" if ok else f"{cname}.evaluate does not range over the full rows x cols grid", loc=ev.loc, detail="full-grid")
 
 
 # ------------------------------------------------------------------------------------------------ R11.4
